@@ -1,6 +1,6 @@
 (** C09 - Socket.IO encoding round-trips, matches the v5 format, leaves its input intact.
     This file holds statements only; every proof is `exact <lemma>`. *)
-From SioV Require Import Base.GoSem Sio.Json Sio.Header Sio.HeaderProofs Sio.Binary Sio.BinaryProofs Sio.Codec Sio.CodecProofs.
+From SioV Require Import Base.GoSem Sio.Json Sio.JsonProofs Sio.Header Sio.HeaderProofs Sio.Binary Sio.BinaryProofs Sio.Codec Sio.CodecProofs.
 
 (** Encode hands back the value it was given exactly as it was (every cell deconstruct overwrote
     with a placeholder is restored), for every JSON library, value tree of any depth, header and
@@ -54,3 +54,10 @@ Proof. exact parse_encode_header_full. Qed.
     (event name ending in a backslash included). *)
 Theorem C09_protocol_examples : protocol_examples_stmt.
 Proof. exact protocol_examples. Qed.
+
+(** JSON integers (any size, either sign) printed by [jprint] and followed by a separator parse
+    back to themselves: the number part of [jparse (jprint v) = Some v] (ack ids / attachment
+    counts use C10's [parse_uint_fmt]). *)
+Theorem C09_json_int_roundtrip :
+  forall z rest, okf rest -> pnum (pZ z ++ rest) = Some (z, rest).
+Proof. exact pnum_pZ. Qed.
